@@ -691,8 +691,8 @@ def run_effects():
         tail = line[line.index('", b!"') :]
         params = tail.split("[")[1].split("]")[0].strip()
         globs = tail.split("[")[2].split("]")[0].strip()
-        want = "0" if name.endswith(").Decode") else ""
-        if params != want or globs:
+        ok = params == ("0" if name.endswith(").Decode") else "") or (name.endswith(").ExportWith") and params in ("", "1"))
+        if not ok or globs:
             odd.append("%s may write through parameters [%s] and package-level variables [%s]" % (name, params, globs.replace('b!', '')))
     return odd
 
